@@ -52,7 +52,7 @@ theorem Triple.ite {α} (c : Prop) [Decidable c] {P} {p q : Prog α} {Q}
 /-- a quiet state update keeps everything that only depends on the life-cycle view -/
 theorem Triple.quiet {P : St → Prop} (g : St → St) (hg : Quiet g) (hP : ∀ s, P s → P (g s)) :
     Triple P (modify g) (fun _ s => P s) :=
-  Triple.mod g fun s hI hp => ⟨Inv.congr (hg.sigs s) (hg.ctx s) (hg.next s) hI, fun _ hM => Mono.congr_right (hg.sigs s) hM, hP s hp⟩
+  Triple.mod g fun s hI hp => ⟨Inv.congr (hg.sigs s) (hg.ctx s) (hg.next s) hI (hg.trans s), fun _ hM => Mono.congr_right (hg.sigs s) hM, hP s hp⟩
 
 /-- facts about the life-cycle view that quiet updates and `curr_mod` updates preserve -/
 def ViewP (F : List Sig → Prop) : St → Prop := fun s => F s.sigs
@@ -88,7 +88,7 @@ theorem Triple.step {P Q R : St → Prop} (hR : Stable R) (g : St → St)
 
 theorem Triple.quietR {P R : St → Prop} (hR : Stable R) (g : St → St) (hg : Quiet g) (hP : ∀ s, P s → P (g s)) :
     Triple (fun s => P s ∧ R s) (Lm.Core.modify g) (fun _ s => P s ∧ R s) :=
-  Triple.mod g fun s hI hp => ⟨Inv.congr (hg.sigs s) (hg.ctx s) (hg.next s) hI, fun _ hM => Mono.congr_right (hg.sigs s) hM,
+  Triple.mod g fun s hI hp => ⟨Inv.congr (hg.sigs s) (hg.ctx s) (hg.next s) hI (hg.trans s), fun _ hM => Mono.congr_right (hg.sigs s) hM,
     hP s hp.1, hR.view _ _ (hg.sigs s) hp.2⟩
 
 theorem Triple.callR {R : St → Prop} (hR : Stable R) (cb m e) : Triple R (callCb cb m e) (fun _ => R) :=
@@ -122,32 +122,41 @@ theorem Triple.retR {α} {P R : St → Prop} (x : α) (h : ∀ s, P s → R s) :
 
 theorem Triple.quietS {R : St → Prop} (hR : Stable R) (g : St → St) (hg : Quiet g) :
     Triple R (Lm.Core.modify g) (fun _ => R) :=
-  Triple.mod g fun s hI hp => ⟨Inv.congr (hg.sigs s) (hg.ctx s) (hg.next s) hI, fun _ hM => Mono.congr_right (hg.sigs s) hM,
+  Triple.mod g fun s hI hp => ⟨Inv.congr (hg.sigs s) (hg.ctx s) (hg.next s) hI (hg.trans s), fun _ hM => Mono.congr_right (hg.sigs s) hM,
     hR.view _ _ (hg.sigs s) hp⟩
+
+/-- the state the module leaves makes the change a documented edge: pause only from RUNNING; stop from RUNNING or PAUSED
+(a repeated stop of a STOPPED module changes nothing), or from any state as the first half of a deregistration -/
+def StopEdge (g : Sig) (stopping leave : Bool) : Prop :=
+  (stopping = false → g.state = .running) ∧
+  (stopping = true → leave = true ∨ g.state = .running ∨ g.state = .paused ∨ g.state = .stopped)
 
 /-- `stop(mod, stopping[, leave])`: for a module that is not a ZOMBIE (and, when pausing, is in its context).
 When `leave` is set the module is out of the table afterwards. -/
 theorem stopP_triple {R : St → Prop} (hR : Stable R) (m : ModId) (stopping leave : Bool) :
-    Triple (fun s => R s ∧ ∃ g : Sig, s.sigs[m]? = some g ∧ g.state ≠ .zombie ∧ (stopping = false → g.inCtx = true ∧ leave = false))
+    Triple (fun s => R s ∧ ∃ g : Sig, s.sigs[m]? = some g ∧ g.state ≠ .zombie ∧ (stopping = false → g.inCtx = true ∧ leave = false) ∧
+        StopEdge g stopping leave)
       (stopP m stopping leave) (fun _ s => R s ∧ (leave = true → OutOf m s)) := by
   unfold stopP
-  refine Triple.bind (Q := fun _ s => R s ∧ ∃ g : Sig, s.sigs[m]? = some g ∧ g.state ≠ .zombie ∧ (stopping = false → g.inCtx = true ∧ leave = false)) ?_ fun _ => ?_
+  refine Triple.bind (Q := fun _ s => R s ∧ ∃ g : Sig, s.sigs[m]? = some g ∧ g.state ≠ .zombie ∧ (stopping = false → g.inCtx = true ∧ leave = false) ∧
+        StopEdge g stopping leave) ?_ fun _ => ?_
   · exact Triple.mod _ fun s hI hp =>
       have q := quiet_manageSrcsRm m stopping
-      ⟨Inv.congr (q.sigs s) (q.ctx s) (q.next s) hI, fun _ hM => Mono.congr_right (q.sigs s) hM, hR.view _ _ (q.sigs s) hp.1,
+      ⟨Inv.congr (q.sigs s) (q.ctx s) (q.next s) hI (q.trans s), fun _ hM => Mono.congr_right (q.sigs s) hM, hR.view _ _ (q.sigs s) hp.1,
         by rw [q.sigs s]; exact hp.2⟩
   have hS : Stable (fun s => R s ∧ (leave = true → OutOf m s)) :=
     ⟨fun s s' h hp => ⟨hR.view _ _ h hp.1, fun hl => (Stable.outOf m).view _ _ h (hp.2 hl)⟩,
      fun s s' h hp => ⟨hR.mono _ _ h hp.1, fun hl => (Stable.outOf m).mono _ _ h (hp.2 hl)⟩⟩
   refine Triple.bind (Q := fun _ s => R s ∧ (leave = true → OutOf m s)) ?_ fun _ => ?_
   · refine Triple.mod _ fun s hI hp => ?_
-    obtain ⟨hr, g, hg, hz, hin⟩ := hp
+    obtain ⟨hr, g, hg, hz, hin, hedge⟩ := hp
     have hx : (if stopping = true then MState.stopped else MState.paused) = .stopped ∨
         ((if stopping = true then MState.stopped else MState.paused) = .paused ∧ g.inCtx = true ∧ leave = false) := by
       cases stopping with
       | true => left; rfl
       | false => right; exact ⟨rfl, (hin rfl).1, (hin rfl).2⟩
-    have hinv := inv_stop s m g _ leave hI hg hx
+    have hinv := inv_stop s m g _ leave hI hg hx ⟨hz, fun h => hedge.1 (by cases stopping <;> simp_all),
+      fun h => hedge.2 (by cases stopping <;> simp_all)⟩
     have hsig := stopStep_sigs s m g (if stopping = true then MState.stopped else MState.paused) leave hg
     have hmono : Mono s (stopStep s m (if stopping = true then MState.stopped else MState.paused) leave) :=
       Mono_set s s _ m g _ (Mono.refl s) hg hsig (fun h => by cases leave <;> simp [Sig.stopped, h])
@@ -195,14 +204,14 @@ theorem startP_triple {R : St → Prop} (hR : Stable R) (m : ModId) (starting : 
         (Lm.Core.modify g)
         (fun _ s => R s ∧ ∃ g : Sig, s.sigs[m]? = some g ∧ g.state ≠ .running ∧ g.state ≠ .zombie ∧ g.inCtx = true) :=
     fun g q => Triple.mod _ fun s hI hp =>
-      ⟨Inv.congr (q.sigs s) (q.ctx s) (q.next s) hI, fun _ hM => Mono.congr_right (q.sigs s) hM, hR.view _ _ (q.sigs s) hp.1,
+      ⟨Inv.congr (q.sigs s) (q.ctx s) (q.next s) hI (q.trans s), fun _ hM => Mono.congr_right (q.sigs s) hM, hR.view _ _ (q.sigs s) hp.1,
         by rw [q.sigs s]; exact hp.2⟩
   refine Triple.bind (qv _ (Quiet.ite _ (quiet_updMod m _ (fun md => rfl)) Quiet.id)) fun _ => ?_
   refine Triple.bind (qv _ (quiet_manageSrcsAdd m)) fun _ => ?_
   refine Triple.bind (Q := fun _ => R) ?_ fun _ => ?_
   · refine Triple.mod _ fun s hI hp => ?_
     obtain ⟨hr, g, hg, hnr, hz, hin⟩ := hp
-    have hinv := inv_start s m g hI hg hnr hin
+    have hinv := inv_start s m g hI hg hnr hin hz
     have hsig : (setState (s.updCtxId (s.ctxIdOf m) (fun c => { c with running := c.running + 1 })) m .running).sigs
         = s.sigs.set m (g.setState .running) := by
       rw [setState_sigs]; simp [hg]
@@ -229,7 +238,7 @@ theorem startP_triple {R : St → Prop} (hR : Stable R) (m : ModId) (starting : 
         intro st _ ⟨he, hr⟩
         subst he
         obtain ⟨g, hg, hs⟩ := sig_of_isRP _ m hrp
-        refine ⟨hr, g, hg, ?_, fun h => by cases h⟩
+        refine ⟨hr, g, hg, ?_, (fun h => by cases h), ⟨(fun h => by cases h), fun _ => by rcases hs with h | h <;> simp [h]⟩⟩
         rcases hs with h | h <;> (rw [h]; decide)
       · intro _; exact Triple.retR _ (fun _ h => h.2)
     · intro _; exact Triple.retR _ (fun _ h => h)
@@ -352,7 +361,7 @@ theorem modDeregCore_triple {R : St → Prop} (hR : Stable R) (ar : Prog Int) (h
             · refine Triple.weaken (stopP_triple hR m true true) ?_ (fun _ _ _ h => ⟨h.1, h.2 rfl⟩)
               intro st _ ⟨he, hr⟩
               subst he
-              refine ⟨hr, md.sig, sig_of_mod _ m md hmd, ?_, fun h => by cases h⟩
+              refine ⟨hr, md.sig, sig_of_mod _ m md hmd, ?_, (fun h => by cases h), ⟨(fun h => by cases h), fun _ => Or.inl rfl⟩⟩
               -- not a ZOMBIE: `M_MOD_ASSERT` passed
               unfold modAssert at hma
               simp only [hmd] at hma
@@ -507,7 +516,7 @@ theorem flushModP_triple {R : St → Prop} (hR : Stable R) (m : ModId) : Triple 
           subst he
           simp only [Bool.and_eq_true] at hc
           obtain ⟨g, hg, hs⟩ := sig_of_isRP _ m hc.2
-          refine ⟨hr, g, hg, ?_, fun h => by cases h⟩
+          refine ⟨hr, g, hg, ?_, (fun h => by cases h), ⟨(fun h => by cases h), fun _ => by rcases hs with h | h <;> simp [h]⟩⟩
           rcases hs with h | h <;> (rw [h]; decide)
         · intro _; exact Triple.retR _ (fun _ h => h.2)
       · intro _
@@ -634,7 +643,7 @@ theorem recvOneP_triple {R : St → Prop} (hR : Stable R) (p : PollEnt) : Triple
                 intro st _ ⟨he, hr⟩
                 subst he
                 obtain ⟨g, hg, hs⟩ := sig_of_isRP _ m hrp
-                refine ⟨hr, g, hg, ?_, fun h => by cases h⟩
+                refine ⟨hr, g, hg, ?_, (fun h => by cases h), ⟨(fun h => by cases h), fun _ => by rcases hs with h | h <;> simp [h]⟩⟩
                 rcases hs with h | h <;> (rw [h]; decide)
               · intro _; exact Triple.retR _ (fun _ h => h.2)
             · intro _
@@ -758,29 +767,29 @@ theorem apiLoop_triple {R : St → Prop} (hR : Stable R) : Triple R apiLoop (fun
 /-! ## The public API programs -/
 
 theorem consumeToken_view (s s' : St) (m : ModId) (h : consumeToken s m = some s') :
-    s'.sigs = s.sigs ∧ s'.ctx = s.ctx ∧ s'.nextCtx = s.nextCtx := by
+    s'.sigs = s.sigs ∧ s'.ctx = s.ctx ∧ s'.nextCtx = s.nextCtx ∧ s'.trans = s.trans := by
   unfold consumeToken at h
   cases hm : s.mods[m]? with
   | none => simp [hm] at h
   | some md =>
     simp only [hm] at h
     cases htb : md.tb with
-    | none => simp [htb] at h; subst h; exact ⟨rfl, rfl, rfl⟩
+    | none => simp [htb] at h; subst h; exact ⟨rfl, rfl, rfl, rfl⟩
     | some tb =>
       simp only [htb] at h
       by_cases h0 : tb.tokens = 0
       · simp [h0] at h
       · simp only [h0, if_false, Option.some.injEq] at h
         subst h
-        exact ⟨updMod_sigs s m _ (fun _ => rfl), by simp, by simp⟩
+        exact ⟨updMod_sigs s m _ (fun _ => rfl), by simp, by simp, by simp⟩
 
 /-- setting the state to one obtained from the current one without touching the life-cycle view -/
 theorem Triple.setView {P : St → Prop} {R : St → Prop} (hR : Stable R) (x : St)
-    (h : ∀ s, P s → x.sigs = s.sigs ∧ x.ctx = s.ctx ∧ x.nextCtx = s.nextCtx) :
+    (h : ∀ s, P s → x.sigs = s.sigs ∧ x.ctx = s.ctx ∧ x.nextCtx = s.nextCtx ∧ x.trans = s.trans) :
     Triple (fun s => P s ∧ R s) (setSt x) (fun _ => R) :=
   Triple.set x fun s hI hp =>
     have hv := h s hp.1
-    ⟨Inv.congr hv.1 hv.2.1 hv.2.2 hI, fun _ hM => Mono.congr_right hv.1 hM, hR.view _ _ hv.1 hp.2⟩
+    ⟨Inv.congr hv.1 hv.2.1 hv.2.2.1 hI hv.2.2.2, fun _ hM => Mono.congr_right hv.1 hM, hR.view _ _ hv.1 hp.2⟩
 
 theorem modAssert_not_zombie (s : St) (m : ModId) (md : Mod) (hm : s.mods[m]? = some md) (h : modAssert s m = none) :
     md.state ≠ .zombie := by
@@ -832,7 +841,7 @@ theorem guarded_triple {R : St → Prop} (hR : Stable R) (m : ModId) (deny : Mod
               refine Triple.set s' fun st hI hp => ?_
               obtain ⟨he, hr⟩ := hp
               subst he
-              exact ⟨Inv.congr hv.1 hv.2.1 hv.2.2 hI, fun _ hM => Mono.congr_right hv.1 hM, hR.view _ _ hv.1 hr,
+              exact ⟨Inv.congr hv.1 hv.2.1 hv.2.2.1 hI hv.2.2.2, fun _ hM => Mono.congr_right hv.1 hM, hR.view _ _ hv.1 hr,
                 Passed.view m mask _ _ hv.1 hpass⟩
           · intro _
             refine Triple.weaken hbody ?_ (fun _ _ _ h => h)
@@ -846,7 +855,7 @@ theorem apiPause_triple {R : St → Prop} (hR : Stable R) (m : ModId) : Triple R
   refine Triple.weaken (stopP_triple hR m false false) ?_ (fun _ _ _ h => h.1)
   intro s hI ⟨hr, g, hg, hz, hmask⟩
   have hrun : g.state = .running := by simpa using hmask _ rfl
-  refine ⟨hr, g, hg, hz, fun _ => ⟨?_, rfl⟩⟩
+  refine ⟨hr, g, hg, hz, fun _ => ⟨?_, rfl⟩, ⟨fun _ => hrun, (fun h => by cases h)⟩⟩
   cases hin : g.inCtx with
   | true => rfl
   | false => rcases hI.out m g hg hin with h | h <;> (rw [hrun] at h; cases h)
@@ -866,8 +875,9 @@ theorem apiStop_triple {R : St → Prop} (hR : Stable R) (m : ModId) : Triple R 
   unfold apiStop
   refine guarded_triple hR m _ _ _ _ ?_
   refine Triple.weaken (stopP_triple hR m true false) ?_ (fun _ _ _ h => h.1)
-  intro s _ ⟨hr, g, hg, hz, _⟩
-  exact ⟨hr, g, hg, hz, fun h => by cases h⟩
+  intro s _ ⟨hr, g, hg, hz, hmask⟩
+  have hrp : g.state = .running ∨ g.state = .paused := by simpa using hmask _ rfl
+  exact ⟨hr, g, hg, hz, (fun h => by cases h), ⟨(fun h => by cases h), fun _ => by rcases hrp with h | h <;> simp [h]⟩⟩
 
 theorem sig_inCtx_of_modByName (s : St) (m : ModId) (n : String) (h : s.modByName n = some m) :
     ∃ g : Sig, s.sigs[m]? = some g ∧ g.inCtx = true := by
@@ -914,7 +924,7 @@ theorem apiStart_triple {R : St → Prop} (hR : Stable R) (m : ModId) : Triple R
             refine Triple.set s' fun st hI hp => ?_
             obtain ⟨he, hr⟩ := hp
             subst he
-            exact ⟨Inv.congr hv.1 hv.2.1 hv.2.2 hI, fun _ hM => Mono.congr_right hv.1 hM, hR.view _ _ hv.1 hr,
+            exact ⟨Inv.congr hv.1 hv.2.1 hv.2.2.1 hI hv.2.2.2, fun _ hM => Mono.congr_right hv.1 hM, hR.view _ _ hv.1 hr,
               g, by rw [hv.1]; exact hg, hnr.1, hnr.2, hin⟩
 
 
@@ -975,7 +985,7 @@ theorem apiStash_triple {R : St → Prop} (hR : Stable R) (m : ModId) (e : Optio
       · refine Triple.set s' fun st hI hp => ?_
         obtain ⟨he, hr, _⟩ := hp
         subst he
-        exact ⟨Inv.congr hv.1 hv.2.1 hv.2.2 hI, fun _ hM => Mono.congr_right hv.1 hM, hR.view _ _ hv.1 hr⟩
+        exact ⟨Inv.congr hv.1 hv.2.1 hv.2.2.1 hI hv.2.2.2, fun _ hM => Mono.congr_right hv.1 hM, hR.view _ _ hv.1 hr⟩
       apply Triple.ite
       · intro _; exact Triple.retR _ (fun _ h => h)
       · intro _
@@ -998,7 +1008,7 @@ theorem apiUnstash_triple {R : St → Prop} (hR : Stable R) (m : ModId) (n : Nat
       · refine Triple.set s' fun st hI hp => ?_
         obtain ⟨he, hr, _⟩ := hp
         subst he
-        exact ⟨Inv.congr hv.1 hv.2.1 hv.2.2 hI, fun _ hM => Mono.congr_right hv.1 hM, hR.view _ _ hv.1 hr⟩
+        exact ⟨Inv.congr hv.1 hv.2.1 hv.2.2.1 hI hv.2.2.2, fun _ hM => Mono.congr_right hv.1 hM, hR.view _ _ hv.1 hr⟩
       cases s'.mods[m]? with
       | none => exact Triple.retR _ (fun _ h => h)
       | some md =>
@@ -1017,18 +1027,19 @@ theorem quiet_rmInternal (m ns role) : Quiet (fun s => rmInternal s m ns role) :
   · exact ⟨_, Quiet.id, rfl⟩
 
 theorem addSrc_view (s : St) (m : ModId) (x : Src) :
-    (addSrc s m x).1.sigs = s.sigs ∧ (addSrc s m x).1.ctx = s.ctx ∧ (addSrc s m x).1.nextCtx = s.nextCtx := by
+    (addSrc s m x).1.sigs = s.sigs ∧ (addSrc s m x).1.ctx = s.ctx ∧ (addSrc s m x).1.nextCtx = s.nextCtx ∧
+    (addSrc s m x).1.trans = s.trans := by
   unfold addSrc
   split
   · split
-    · exact ⟨rfl, rfl, rfl⟩
-    · exact ⟨rfl, rfl, rfl⟩
+    · exact ⟨rfl, rfl, rfl, rfl⟩
+    · exact ⟨rfl, rfl, rfl, rfl⟩
   · split
-    · exact ⟨rfl, rfl, rfl⟩
+    · exact ⟨rfl, rfl, rfl, rfl⟩
     · split
-      · split <;> exact ⟨rfl, rfl, rfl⟩
+      · split <;> exact ⟨rfl, rfl, rfl, rfl⟩
       · simp only
-        exact ⟨updMod_sigs _ m _ (fun _ => rfl), by simp, by simp⟩
+        exact ⟨updMod_sigs _ m _ (fun _ => rfl), by simp, by simp, by simp⟩
 
 theorem apiBatchTimeout_triple {R : St → Prop} (hR : Stable R) (m : ModId) (ns : Nat) : Triple R (apiBatchTimeout m ns) (fun _ => R) := by
   unfold apiBatchTimeout
@@ -1050,7 +1061,7 @@ theorem apiBatchTimeout_triple {R : St → Prop} (hR : Stable R) (m : ModId) (ns
       refine Triple.set _ fun st hI hp => ?_
       obtain ⟨he, hr⟩ := hp
       subst he
-      exact ⟨Inv.congr hv.1 hv.2.1 hv.2.2 hI, fun _ hM => Mono.congr_right hv.1 hM, hR.view _ _ hv.1 hr⟩
+      exact ⟨Inv.congr hv.1 hv.2.1 hv.2.2.1 hI hv.2.2.2, fun _ hM => Mono.congr_right hv.1 hM, hR.view _ _ hv.1 hr⟩
     · intro _
       refine Triple.bind (Q := fun _ => R) (Triple.quietS hR _ (quiet_updMod m _ (fun md => by split <;> rfl))) fun _ => ?_
       exact Triple.retR _ (fun _ h => h)
@@ -1082,7 +1093,7 @@ theorem apiTokenBucket_triple {R : St → Prop} (hR : Stable R) (m : ModId) (rat
         refine Triple.set _ fun st hI hp => ?_
         obtain ⟨he, hr⟩ := hp
         subst he
-        exact ⟨Inv.congr hv.1 hv.2.1 hv.2.2 hI, fun _ hM => Mono.congr_right hv.1 hM, hR.view _ _ hv.1 hr⟩
+        exact ⟨Inv.congr hv.1 hv.2.1 hv.2.2.1 hI hv.2.2.2, fun _ hM => Mono.congr_right hv.1 hM, hR.view _ _ hv.1 hr⟩
 
 
 theorem apiTell_triple {R : St → Prop} (hR : Stable R) (m r : ModId) (p : Nat) (af : Bool) : Triple R (apiTell m r p af) (fun _ => R) := by
@@ -1101,7 +1112,7 @@ theorem apiTell_triple {R : St → Prop} (hR : Stable R) (m r : ModId) (p : Nat)
       · refine Triple.set s' fun st hI hp => ?_
         obtain ⟨he, hr, _⟩ := hp
         subst he
-        exact ⟨Inv.congr hv.1 hv.2.1 hv.2.2 hI, fun _ hM => Mono.congr_right hv.1 hM, hR.view _ _ hv.1 hr⟩
+        exact ⟨Inv.congr hv.1 hv.2.1 hv.2.2.1 hI hv.2.2.2, fun _ hM => Mono.congr_right hv.1 hM, hR.view _ _ hv.1 hr⟩
       refine Triple.bind (Q := fun _ => R) (Triple.quietS hR _ (quiet_sendMsg _ _ _ _ _)) fun _ => Triple.retR _ (fun _ h => h)
 
 theorem apiPublish_triple {R : St → Prop} (hR : Stable R) (m : ModId) (t : Option String) (p : Nat) (af : Bool) :
@@ -1121,7 +1132,7 @@ theorem apiPublish_triple {R : St → Prop} (hR : Stable R) (m : ModId) (t : Opt
       · refine Triple.set s' fun st hI hp => ?_
         obtain ⟨he, hr, _⟩ := hp
         subst he
-        exact ⟨Inv.congr hv.1 hv.2.1 hv.2.2 hI, fun _ hM => Mono.congr_right hv.1 hM, hR.view _ _ hv.1 hr⟩
+        exact ⟨Inv.congr hv.1 hv.2.1 hv.2.2.1 hI hv.2.2.2, fun _ hM => Mono.congr_right hv.1 hM, hR.view _ _ hv.1 hr⟩
       refine Triple.bind (Q := fun _ => R) (Triple.quietS hR _ (quiet_sendMsg _ _ _ _ _)) fun _ => Triple.retR _ (fun _ h => h)
 
 theorem apiPill_triple {R : St → Prop} (hR : Stable R) (m r : ModId) : Triple R (apiPill m r) (fun _ => R) := by
@@ -1143,7 +1154,7 @@ theorem apiPill_triple {R : St → Prop} (hR : Stable R) (m r : ModId) : Triple 
         · refine Triple.set s' fun st hI hp => ?_
           obtain ⟨he, hr, _⟩ := hp
           subst he
-          exact ⟨Inv.congr hv.1 hv.2.1 hv.2.2 hI, fun _ hM => Mono.congr_right hv.1 hM, hR.view _ _ hv.1 hr⟩
+          exact ⟨Inv.congr hv.1 hv.2.1 hv.2.2.1 hI hv.2.2.2, fun _ hM => Mono.congr_right hv.1 hM, hR.view _ _ hv.1 hr⟩
         refine Triple.bind (Q := fun _ => R) (Triple.quietS hR _ (quiet_tellSystem _ _ _ _)) fun _ => Triple.retR _ (fun _ h => h)
 
 theorem quiet_addSub (m : ModId) (x : Src) : Quiet (fun s => addSub s m x) := by
@@ -1173,7 +1184,7 @@ theorem apiSubscribe_triple {R : St → Prop} (hR : Stable R) (m : ModId) (t : S
       · refine Triple.set s' fun st hI hp => ?_
         obtain ⟨he, hr, _⟩ := hp
         subst he
-        exact ⟨Inv.congr hv.1 hv.2.1 hv.2.2 hI, fun _ hM => Mono.congr_right hv.1 hM, hR.view _ _ hv.1 hr⟩
+        exact ⟨Inv.congr hv.1 hv.2.1 hv.2.2.1 hI hv.2.2.2, fun _ hM => Mono.congr_right hv.1 hM, hR.view _ _ hv.1 hr⟩
       cases s'.mods[m]? with
       | none => exact Triple.retR _ (fun _ h => h)
       | some md =>
@@ -1214,7 +1225,7 @@ theorem apiRegSrc_triple {R : St → Prop} (hR : Stable R) (m : ModId) (ok : Boo
       refine Triple.set _ fun st hI hp => ?_
       obtain ⟨he, hr, _⟩ := hp
       subst he
-      exact ⟨Inv.congr hv.1 hv.2.1 hv.2.2 hI, fun _ hM => Mono.congr_right hv.1 hM, hR.view _ _ hv.1 hr⟩
+      exact ⟨Inv.congr hv.1 hv.2.1 hv.2.2.1 hI hv.2.2.2, fun _ hM => Mono.congr_right hv.1 hM, hR.view _ _ hv.1 hr⟩
 
 theorem burstP_triple {R : St → Prop} (hR : Stable R) (m r : ModId) (af : Bool) :
     ∀ (n p : Nat) (acc : Int), Triple R (burstP m r af n p acc) (fun _ => R)
